@@ -11,6 +11,9 @@ package main
 //           emit = (offsets.current #data)
 //  which=1  same case; emit = (offsets.current #data ok cutoff #out)   with checkInputBytes inside In
 //  which=2  checkInputBytes alone: case = (max cut #bytes)  obs = (ok cutoff #out)
+//  which=3  several jobs per worker.work call (shared accumBuf / readBuf): case = (w sched (filecase ...)),
+//           obs = one which-w observable per file; see c06ExecMulti and coq/Model/Worker.v (c06_multi)
+//  a which-0/1 case may carry a 6th item `base`: the file starts with a hole of base bytes (sparse), all offsets shift
 
 import (
 	"bytes"
@@ -61,11 +64,103 @@ func c06TempDir() string {
 	return c06Dir
 }
 
-func c06Exec(which int, cs hx.Sx) hx.Sx {
+// c06File = one real file + the real job on it + what the recording inputer saw for it
+type c06File struct {
+	wf     *os.File
+	v      *filein.VerifC06
+	which  int
+	pipe   *pipeline.Pipeline
+	rounds []hx.Sx
+	next   int
+	emits  []hx.Sx
+	passes []hx.Sx
+}
+
+func (f *c06File) record(off int64, data []byte) {
+	if f.which == 1 {
+		d := hx.B(data) // copy before the admission check may write into the buffer
+		o, cf, ok := f.pipe.VerifCheckInputBytesC06(data)
+		f.emits = append(f.emits, hx.L(hx.Z(off), d, hx.Bool(ok), hx.Bool(cf), hx.B(o)))
+	} else {
+		f.emits = append(f.emits, hx.L(hx.Z(off), hx.B(data)))
+	}
+}
+
+func (f *c06File) endPass() {
+	cur, tail, skip, pos := f.v.State()
+	f.passes = append(f.passes, hx.L(hx.L(f.emits...), hx.Z(cur), hx.Z(pos), hx.B(tail), hx.Bool(skip)))
+	f.emits = nil
+}
+
+func (f *c06File) close() {
+	if f.v != nil {
+		f.v.Close()
+	}
+	if f.wf != nil {
+		f.wf.Close()
+	}
+}
+
+// c06Open creates the file of one which-0/1 case (prefix written, optional hole of `base` bytes in front of it) and the
+// real job on it; onIn receives what the worker hands to In while it works on ANY job of the same work() call.
+func c06Open(name string, which int, cs hx.Sx, onIn func(f *c06File, off int64, data []byte)) (*c06File, error) {
 	it := hx.Items(cs)
 	max := int(hx.Int(it[0]))
 	cut := hx.Truth(it[1])
+	mode := int(hx.Int(it[2]))
+	prefix := hx.Bytes(it[3])
+	base := int64(0)
+	if len(it) > 5 {
+		base = hx.Int(it[5])
+	}
+	path := filepath.Join(c06TempDir(), name)
+	wf, err := os.OpenFile(path, os.O_CREATE|os.O_TRUNC|os.O_WRONLY|os.O_APPEND, 0o600)
+	if err != nil {
+		return nil, err
+	}
+	f := &c06File{wf: wf, which: which, rounds: hx.Items(it[4])}
+	if base > 0 { // sparse file: a hole of base bytes, everything else is appended behind it
+		if err := wf.Truncate(base); err != nil {
+			f.close()
+			return nil, err
+		}
+	}
+	if len(prefix) > 0 {
+		if _, err := wf.Write(prefix); err != nil {
+			f.close()
+			return nil, err
+		}
+	}
+	if which == 1 {
+		f.pipe = c06Pipe(max, cut)
+	}
+	f.v, err = filein.VerifNewC06(path, max, cut, mode == 1, base+int64(len(prefix)), func(off int64, data []byte) { onIn(f, off, data) })
+	if err != nil {
+		f.close()
+		return nil, err
+	}
+	return f, nil
+}
+
+func (f *c06File) appendNext() (bufsz int, err error) {
+	ri := hx.Items(f.rounds[f.next])
+	f.next++
+	if app := hx.Bytes(ri[0]); len(app) > 0 {
+		if _, err := f.wf.Write(app); err != nil {
+			return 0, err
+		}
+	}
+	return int(hx.Int(ri[1])), nil
+}
+
+func c06Exec(which int, cs hx.Sx) hx.Sx {
+	it := hx.Items(cs)
+	if which == 3 {
+		return c06ExecMulti(cs)
+	}
 	if which == 2 {
+		max := int(hx.Int(it[0]))
+		cut := hx.Truth(it[1])
 		b := hx.Bytes(it[2])
 		var out hx.Sx
 		if msg := hx.Catch(func() {
@@ -76,61 +171,116 @@ func c06Exec(which int, cs hx.Sx) hx.Sx {
 		}
 		return out
 	}
-	mode := int(hx.Int(it[2]))
-	prefix := hx.Bytes(it[3])
-	rounds := hx.Items(it[4])
-
-	path := filepath.Join(c06TempDir(), "f.log")
-	wf, err := os.OpenFile(path, os.O_CREATE|os.O_TRUNC|os.O_WRONLY|os.O_APPEND, 0o600)
-	if err != nil {
-		panic(err)
-	}
-	defer wf.Close()
-	if len(prefix) > 0 {
-		if _, err := wf.Write(prefix); err != nil {
-			panic(err)
-		}
-	}
-	var pipe *pipeline.Pipeline
-	if which == 1 {
-		pipe = c06Pipe(max, cut)
-	}
-	var emits []hx.Sx
-	onIn := func(off int64, data []byte) {
-		if which == 1 {
-			d := hx.B(data) // copy before the admission check may write into the buffer
-			o, cf, ok := pipe.VerifCheckInputBytesC06(data)
-			emits = append(emits, hx.L(hx.Z(off), d, hx.Bool(ok), hx.Bool(cf), hx.B(o)))
-		} else {
-			emits = append(emits, hx.L(hx.Z(off), hx.B(data)))
-		}
-	}
-	var passes []hx.Sx
+	var f *c06File
 	msg := hx.Catch(func() {
-		v, err := filein.VerifNewC06(path, max, cut, mode == 1, int64(len(prefix)), onIn)
+		var err error
+		f, err = c06Open("f.log", which, cs, func(f *c06File, off int64, data []byte) { f.record(off, data) })
 		if err != nil {
 			panic(err)
 		}
-		defer v.Close()
-		for _, r := range rounds {
-			ri := hx.Items(r)
-			app := hx.Bytes(ri[0])
-			bufsz := int(hx.Int(ri[1]))
-			if len(app) > 0 {
-				if _, err := wf.Write(app); err != nil {
-					panic(err)
-				}
+		for f.next < len(f.rounds) {
+			bufsz, err := f.appendNext()
+			if err != nil {
+				panic(err)
 			}
-			emits = nil
-			v.Round(bufsz)
-			cur, tail, skip, pos := v.State()
-			passes = append(passes, hx.L(hx.L(emits...), hx.Z(cur), hx.Z(pos), hx.B(tail), hx.Bool(skip)))
+			f.v.Round(bufsz)
+			f.endPass()
 		}
 	})
+	var passes []hx.Sx
+	if f != nil {
+		passes = f.passes
+		f.close()
+	}
 	if msg != "" {
 		passes = append(passes, hx.L(hx.S(msg)))
 	}
 	return hx.L(passes...)
+}
+
+// which=3: several jobs per work() call. case = (w sched (filecase ...)), see coq/Model/Worker.v (c06_multi).
+func c06ExecMulti(cs hx.Sx) hx.Sx {
+	it := hx.Items(cs)
+	w := int(hx.Int(it[0]))
+	sched := hx.Items(it[1])
+	fcs := hx.Items(it[2])
+	var files []*c06File
+	var inCall []*c06File // the files whose jobs the running work() call was given
+	// the worker does not tell the inputer which job a line belongs to (the recording inputer drops the source name):
+	// the job being worked on is the only one whose file position is ahead of its saved curOffset
+	onIn := func(_ *c06File, off int64, data []byte) {
+		var owner *c06File
+		n := 0
+		for _, f := range inCall {
+			if cur, _, _, pos := f.v.State(); pos != cur {
+				owner = f
+				n++
+			}
+		}
+		if n != 1 {
+			panic(fmt.Sprintf("harness/c06: %d jobs look busy during In", n))
+		}
+		owner.record(off, data)
+	}
+	msg := hx.Catch(func() {
+		for i, fc := range fcs {
+			f, err := c06Open(fmt.Sprintf("m%d.log", i), w, fc, onIn)
+			if err != nil {
+				panic(err)
+			}
+			files = append(files, f)
+		}
+		table := map[pipeline.SourceID]*filein.Job{}
+		for i, f := range files {
+			table[pipeline.SourceID(i+1)] = c06GutsOf(f.v).job
+		}
+		*c06GutsOf(files[0].v).jobs = table // one provider is shared by all drivers
+		for _, call := range sched {
+			idx := hx.Items(call)
+			if len(idx) == 0 || len(idx) > 3 { // jobsChan of the shared provider holds 4 entries: the jobs and the final nil
+				panic("harness/c06: a work() call takes 1..3 jobs")
+			}
+			inCall = inCall[:0]
+			bufsz := 0
+			for k, x := range idx {
+				f := files[int(hx.Int(x))]
+				for _, g := range inCall {
+					if g == f {
+						panic("harness/c06: a job is queued twice in one call")
+					}
+				}
+				b, err := f.appendNext()
+				if err != nil {
+					panic(err)
+				}
+				if k > 0 && b != bufsz {
+					panic("harness/c06: the rounds of one work() call must share the read buffer size")
+				}
+				bufsz = b
+				inCall = append(inCall, f)
+			}
+			for _, f := range inCall[:len(inCall)-1] {
+				c06GutsOf(f.v).queue()
+			}
+			inCall[len(inCall)-1].v.Round(bufsz) // queues the last job and the final nil, then runs the real worker.work
+			for _, f := range inCall {
+				f.endPass()
+			}
+		}
+	})
+	out := make([]hx.Sx, len(fcs))
+	for i := range out {
+		var passes []hx.Sx
+		if i < len(files) {
+			passes = files[i].passes
+			files[i].close()
+		}
+		if msg != "" {
+			passes = append(passes, hx.L(hx.S(msg)))
+		}
+		out[i] = hx.L(passes...)
+	}
+	return hx.L(out...)
 }
 
 func c06Case(max int, cut bool, mode int, prefix []byte, rounds []hx.Sx) hx.Sx {
@@ -361,11 +511,147 @@ func c06Gen(c *hmain.Ctx) {
 		}
 		c.Do("check-input", 2, hx.L(hx.I(max), hx.Bool(r.Bool()), hx.B(b)), max > 0 && n > max)
 	}
+
+	if os.Getenv("C06_SKIP_THRESHOLDS") != "" { // development aid: time the streams above alone
+		return
+	}
+	// 6. several jobs per worker.work call (which=3). worker.go:48-49 allocate accumBuf / readBuf once per work() and
+	//    reuse them for every job (:131 append(accumBuf[:0], job.tail...), :206 job.tail = append(job.tail[:0], accumBuf...));
+	//    every stream above runs ONE job per work() call with fresh buffers. Regressions only these cases expose:
+	//    job.tail = accumBuf (alias instead of copy: the next job of the same call overwrites the saved tail),
+	//    append(accumBuf, job.tail...) without [:0] (the previous job's tail is glued in front of this job's first line),
+	//    skipLine / scanned / readTotal hoisted out of the job loop, a cut-off accumulator frozen for the NEXT job.
+	//    6a. directed grid: job A leaves an unterminated tail of a length around the buffer size, job B of the same call
+	//        has its own lines and tail, a later call completes A's line (and B's); both orders; w = 0 and 1
+	tailsB := [][2]string{{"", "q\n"}, {"x\n", ""}, {"yy", "y\n"}, {"z\nww", "\n"}, {"\n", "rrrrrrrrr"}, {"kkkkkkkkkkkk", "k\nk\n"}}
+	for _, bufsz := range []int{1, 2, 3, 4, 8} {
+		for _, tl := range []int{0, 1, bufsz - 1, bufsz, bufsz + 1, 3*bufsz + 1} {
+			if tl < 0 {
+				continue
+			}
+			for _, tb := range tailsB {
+				for _, cf := range cfgs {
+					a1 := append([]byte("h\n"), bytes.Repeat([]byte{'A'}, tl)...)
+					a2 := []byte("a\nA2")
+					fa := c06Case(cf.max, cf.cut, 0, nil, []hx.Sx{c06Round(a1, bufsz), c06Round(a2, bufsz), c06Round([]byte("\n"), bufsz)})
+					fb := c06Case(cf.max, cf.cut, 0, []byte("pre\n"), []hx.Sx{c06Round([]byte(tb[0]), bufsz), c06Round([]byte(tb[1]), bufsz)})
+					for order := 0; order < 4; order++ {
+						var sched hx.Sx
+						switch order {
+						case 0: // A(tail) B | A B | A
+							sched = hx.L(hx.L(hx.I(0), hx.I(1)), hx.L(hx.I(0), hx.I(1)), hx.L(hx.I(0)))
+						case 1: // B A(tail) | B A | A
+							sched = hx.L(hx.L(hx.I(1), hx.I(0)), hx.L(hx.I(1), hx.I(0)), hx.L(hx.I(0)))
+						case 2: // A(tail) | B | A B | A      (one job per call, as the other streams do: the control)
+							sched = hx.L(hx.L(hx.I(0)), hx.L(hx.I(1)), hx.L(hx.I(0), hx.I(1)), hx.L(hx.I(0)))
+						default: // A(tail) B | B A | A
+							sched = hx.L(hx.L(hx.I(0), hx.I(1)), hx.L(hx.I(1), hx.I(0)), hx.L(hx.I(0)))
+						}
+						c.Do("multi-job-directed", 3, hx.L(hx.I(order%2), sched, hx.L(fa, fb)), true)
+					}
+				}
+			}
+		}
+	}
+	c.W.Count("multi-job-directed: tail lengths 0,1,buf-1,buf,buf+1,3buf+1 x buf 1,2,3,4,8")
+	//    6b. random: 2..3 files with the random contents of stream 2, 1..6 work() calls, each over a random non-empty
+	//        sequence of distinct files with one read buffer size
+	for i := 0; i < 1200*c.Scale; i++ {
+		max, cut, long := randCfg()
+		nf := r.Range(2, 3)
+		ncalls := r.Range(1, 6)
+		calls := make([][]int, ncalls)
+		bufOf := make([]int, ncalls)
+		uses := make([]int, nf)
+		multi := 0
+		for k := range calls {
+			perm := make([]int, nf)
+			for x := range perm {
+				perm[x] = x
+			}
+			for x := nf - 1; x > 0; x-- {
+				y := r.Intn(x + 1)
+				perm[x], perm[y] = perm[y], perm[x]
+			}
+			take := r.Range(1, nf)
+			if r.Chance(1, 2) {
+				take = nf
+			}
+			calls[k] = perm[:take]
+			if take > 1 {
+				multi++
+			}
+			bufOf[k] = hx.Pick(r, bufs)
+			for _, f := range calls[k] {
+				uses[f]++
+			}
+		}
+		fcs := make([]hx.Sx, nf)
+		hasNL := false
+		for f := 0; f < nf; f++ {
+			var prefix []byte
+			if r.Chance(1, 3) {
+				prefix = randContent(r.Range(1, 3), max, 30, r.Chance(2, 3))
+			}
+			b := randContent(r.Range(0, 8), max, long/2, r.Chance(1, 2))
+			hasNL = hasNL || bytes.IndexByte(b, '\n') >= 0
+			var rs []hx.Sx
+			seen := 0
+			for k := range calls {
+				for _, g := range calls[k] {
+					if g != f {
+						continue
+					}
+					seen++
+					n := len(b)
+					if seen < uses[f] {
+						n = r.Intn(len(b) + 1)
+					}
+					bs := bufOf[k]
+					rs = append(rs, c06Round(b[:n], bs))
+					b = b[n:]
+				}
+			}
+			fcs[f] = c06Case(max, cut, 0, prefix, rs)
+		}
+		sched := make([]hx.Sx, ncalls)
+		for k := range calls {
+			sched[k] = hx.List(calls[k], func(x int) hx.Sx { return hx.I(x) })
+		}
+		c.W.Count(fmt.Sprintf("multi-job-random: files=%d work() calls with >= 2 jobs=%d", nf, min(multi, 4)))
+		c.Do("multi-job-random", 3, hx.L(hx.I(r.Intn(2)), hx.L(sched...), hx.L(fcs...)), hasNL && multi > 0)
+	}
+
+	// 7. large offsets: the file starts with a hole (sparse file), the job resumes at 2^31-2 .. 2^43 (+ prefix): offsets
+	//    beyond 32 bits in offsets.current, curOffset, the file position and the saved tail bookkeeping. Exposes an
+	//    int32 / uint32 / int conversion anywhere on the way from Seek to NewOffsets (reader offsets stayed <= ~40 KB).
+	bases := []int64{1<<31 - 2, 1<<31 + 1, 1<<32 - 1, 1 << 32, 1<<32 + 7, 1<<40 + 1, 1<<43 - 5}
+	for i := 0; i < 300*c.Scale; i++ {
+		max, cut, long := randCfg()
+		base := hx.Pick(r, bases)
+		var prefix []byte
+		if r.Chance(1, 2) {
+			prefix = randContent(r.Range(1, 3), max, 30, r.Chance(2, 3))
+		}
+		b := randContent(r.Range(1, 8), max, long/4, r.Chance(2, 3))
+		rs := randRounds(b, r.Range(1, 4))
+		cs := hx.L(hx.I(max), hx.Bool(cut), hx.I(0), hx.B(prefix), hx.L(rs...), hx.Z(base))
+		c.W.Count(fmt.Sprintf("sparse-offsets: resume offset >= 2^%d", bitLen(base)-1))
+		c.Do("sparse-offsets", r.Intn(2), cs, bytes.IndexByte(b, '\n') >= 0)
+	}
+}
+
+func bitLen(x int64) int {
+	n := 0
+	for ; x > 0; x >>= 1 {
+		n++
+	}
+	return n
 }
 
 func main() {
 	hmain.Run(&hmain.Prop{ID: "C06",
-		Rule: "exhaustive: every content over {a,b,\\n} up to the tier's length x every split into two appends (one worker pass after each) x read buffer 1..4 x (max_event_size, cut_off) in {(0,-),(2,skip),(2,cut),(3,skip),(3,cut)}; random files with lines >> buffer, empty lines, 1..5 passes, resume offsets, tail mode, buffer-aligned line ends, checkInputBytes alone. Non-trivial = content has a newline (exhaustive), or newline and >= 2 passes (random), non-empty prefix (tail-mode), input longer than the limit (check-input); distinct = distinct (sub-model, case) text.",
+		Rule: "exhaustive: every content over {a,b,\\n} up to the tier's length x every split into two appends (one worker pass after each) x read buffer 1..4 x (max_event_size, cut_off) in {(0,-),(2,skip),(2,cut),(3,skip),(3,cut)}; random files with lines >> buffer, empty lines, 1..5 passes, resume offsets, tail mode, buffer-aligned line ends, checkInputBytes alone; several jobs per worker.work call (shared buffers), sparse files with resume offsets beyond 2^32. Non-trivial = content has a newline (exhaustive), or newline and >= 2 passes (random), non-empty prefix (tail-mode), input longer than the limit (check-input); distinct = distinct (sub-model, case) text.",
 		Gen:  c06Gen, Exec: c06Exec})
 	if c06Dir != "" {
 		os.RemoveAll(c06Dir) // also after -replay
